@@ -1,4 +1,5 @@
 import PgBifrost.Model.Batcher
+import PgBifrost.Model.Partitioner
 import PgBifrost.Model.Util
 /-! Line protocol for the batch and batcher models. -/
 namespace PgBifrost.Driver.Batcher
@@ -9,21 +10,33 @@ def showTxns (l : List TxnCount) : String :=
 
 def showIds (l : List Msg) : String := "[" ++ ",".intercalate (l.map fun m => toString m.id) ++ "]"
 
-def showEv : Ev → String
+def showKeys (km : Option KinesisMethod) (b : Batch) : String :=
+  match km with
+  | none => ""
+  | some meth => ":[" ++ ",".intercalate (b.payload.map fun m => hex (PgBifrost.Partitioner.kinesisKey meth m)) ++ "]"
+
+def showEv (km : Option KinesisMethod) : Ev → String
   | .seen l => "seen[" ++ ";".intercalate (l.map fun e => s!"{e.txn}:{e.key}:{e.total}:{e.commit}") ++ "]"
-  | .dispatch w b => s!"dispatch:{w}:{hex b.pkey}:{showIds b.payload}:{showTxns b.txns}:{b.bytes}"
+  | .dispatch w b => s!"dispatch:{w}:{hex b.pkey}:{showIds b.payload}:{showTxns b.txns}:{b.bytes}{showKeys km b}"
   | .selfReport t => s!"self:{showTxns t}"
   | .stat n => s!"stat:{n}"
   | .fatal => "fatal"
 
-def showEvs (l : List Ev) : String := if l.isEmpty then "-" else " ".intercalate (l.map showEv)
+def showEvs (km : Option KinesisMethod) (l : List Ev) : String :=
+  if l.isEmpty then "-" else " ".intercalate (l.map (showEv km))
 
 structure DState where
   K : Kind := genericKind 1
   cfg : Cfg := ⟨1, .roundRobin, 0, 0, 1⟩
   s : State := {}
+  km : Option KinesisMethod := none
 
 instance : Inhabited DState := ⟨{}⟩
+
+def parseKMeth (s : String) : Option KinesisMethod :=
+  match s.splitOn ":" with
+  | "kinesis" :: meth :: _ => if meth == "walstart" then some .walStart else if meth == "batch" then some .batch else none
+  | _ => none
 
 def parseKind (s : String) : Option Kind :=
   match s.splitOn ":" with
@@ -70,20 +83,20 @@ def handle (st : DState) (args : List String) : DState × String :=
     match parseKind kind, workers.toNat?, upd.toInt?, mx.toInt?, mem.toInt? with
     | some K, some w, some upd, some mx, some mem =>
       let r := if routing == "partition" then Routing.partition else Routing.roundRobin
-      ({ K := K, cfg := ⟨w, r, upd, mx, mem⟩, s := {} }, "ok")
+      ({ K := K, cfg := ⟨w, r, upd, mx, mem⟩, s := {}, km := parseKMeth kind }, "ok")
     | _, _, _, _, _ => (st, "bad-op")
   | "msg" :: rest =>
     match parseMsg rest with
     | some m =>
       let (s', evs) := step st.K st.cfg st.s (.msg m)
-      ({ st with s := s' }, showEvs evs)
+      ({ st with s := s' }, showEvs st.km evs)
     | none => (st, "bad-op")
   | ["tick", now, times, order] =>
     match now.toInt?, parseTimes times, (splitList order).mapM unhex with
     | some now, some times, some order =>
       let valid := validTick st.K st.cfg now st.s times order
       let (s', evs) := step st.K st.cfg st.s (.tick now times order)
-      ({ st with s := s' }, s!"valid={valid} {showEvs evs}")
+      ({ st with s := s' }, s!"valid={valid} {showEvs st.km evs}")
     | _, _, _ => (st, "bad-op")
   | ["open"] => (st, showOpen st.s)
   | _ => (st, "bad-op")
